@@ -68,6 +68,8 @@ func runExtra(c Extra) *ev.Failure {
 		return runDefaultRefresh(0)
 	case "close_overlap":
 		return runCloseOverlap(0)
+	case "cumulative_template_set":
+		return runCumulativeTemplates(c)
 	case "refresh_after_outage":
 		// the pending socket error is a kernel matter: a miss is confirmed twice before it counts
 		var f *ev.Failure
@@ -513,8 +515,94 @@ func runRefreshAfterOutage(c Extra) *ev.Failure {
 	return nil
 }
 
+// runCumulativeTemplates: an application that keeps one template set and appends to it: it sends
+// {T0}, then {T0, T1}, then {T0, T1, T2} (N odd: the new template first). Every template of every
+// set was sent: data for each of them is accepted, and a refresh round retransmits each of them.
+func runCumulativeTemplates(c Extra) *ev.Failure {
+	peer, err := exph.NewPeer("udp", false)
+	if err != nil {
+		return nil
+	}
+	defer peer.Close()
+	ep, err := exporter.InitExportingProcess(exporter.ExporterInput{CollectorAddress: peer.Addr, CollectorProtocol: "udp", ObservationDomainID: 23, TempRefTimeout: 3600})
+	if err != nil {
+		return ev.Failf("InitExportingProcess: %v", err)
+	}
+	defer ep.CloseConnToCollector()
+	sent := 0
+	for upTo := 0; upTo < 3; upTo++ {
+		set := entities.NewSet(false)
+		if err := set.PrepareSet(entities.Template, 256); err != nil {
+			return ev.Failf("PrepareSet: %v", err)
+		}
+		order := []int{}
+		for t := 0; t <= upTo; t++ {
+			order = append(order, t)
+		}
+		if c.N%2 == 1 { // the newest template first
+			order = append([]int{upTo}, order[:upTo]...)
+		}
+		for _, t := range order {
+			els := make([]entities.InfoElementWithValue, len(templates[t]))
+			for i, f := range templates[t] {
+				els[i] = glue.Element(glue.IE(f), f.Type, ref.Value{})
+				els[i].ResetValue()
+			}
+			if err := set.AddRecord(els, uint16(256+t)); err != nil {
+				return ev.Failf("adding template %d to the set: %v", 256+t, err)
+			}
+		}
+		if _, err := ep.SendSet(set); err != nil {
+			return ev.Failf("SendSet of a template set holding %d template records: %v", upTo+1, err)
+		}
+		sent++
+	}
+	for t := 0; t < 3; t++ {
+		ds, err := exph.DataSet(uint16(256+t), templates[t], dataRecs(t, 1, t), 0)
+		if err != nil {
+			return ev.Failf("data set: %v", err)
+		}
+		if _, err := ep.SendSet(ds); err != nil {
+			return ev.Failf("data for template %d, which was sent as record %d of a template set, is refused: %v", 256+t, t+1, err)
+		}
+		sent++
+	}
+	peer.WaitDatagrams(sent, 5*time.Second)
+	before, _ := peer.WaitDatagrams(sent, time.Second)
+	if len(before) != sent {
+		return nil // datagram loss
+	}
+	if err := ep.VerifSendRefreshedTemplates(); err != nil {
+		return ev.Failf("refresh round: %v", err)
+	}
+	time.Sleep(50 * time.Millisecond)
+	all, _ := peer.WaitDatagrams(sent+1, time.Second)
+	refreshed := map[uint16]int{}
+	for _, d := range all[sent:] {
+		_, sets, err := ref.ParseMessage(d)
+		if err != nil || len(sets) != 1 || sets[0].ID != 2 {
+			return ev.Failf("a refresh round wrote something that is not a template message")
+		}
+		for body := sets[0].Body; len(body) >= 4; {
+			t, n, err := ref.ParseTemplateRecord(body)
+			if err != nil {
+				return ev.Failf("refresh round: malformed template record: %v", err)
+			}
+			refreshed[t.ID]++
+			body = body[n:]
+		}
+	}
+	for t := 0; t < 3; t++ {
+		if refreshed[uint16(256+t)] == 0 {
+			// loss of exactly that datagram is possible but then the others are there: confirm once
+			return ev.Failf("template %d was sent (as one of several records of a template set); a refresh round retransmitted %v and not it", 256+t, refreshed)
+		}
+	}
+	return nil
+}
+
 func extraCases(thorough bool) []Extra {
-	out := []Extra{{Kind: "refresh_after_outage"}, {Kind: "json_refresh"}, {Kind: "json_refresh", N: 1}, {Kind: "json_refresh", Ticker: true}, {Kind: "dtls_ticker"}, {Kind: "refresh_unbuildable"}, {Kind: "refresh_unbuildable", N: 1}}
+	out := []Extra{{Kind: "refresh_after_outage"}, {Kind: "cumulative_template_set"}, {Kind: "cumulative_template_set", N: 1}, {Kind: "json_refresh"}, {Kind: "json_refresh", N: 1}, {Kind: "json_refresh", Ticker: true}, {Kind: "dtls_ticker"}, {Kind: "refresh_unbuildable"}, {Kind: "refresh_unbuildable", N: 1}}
 	n := 4
 	if thorough {
 		n = 20
